@@ -122,7 +122,9 @@ HARNESS h_embed_label_invalid() {
 // ---------------------------------------------------------------------------------------------------------------------
 // embed_label_delta(label, base, DS) -> [bind either] -> relocate_to_base: the field holds (section + label) - (section + base label).
 // mode 0: main harness (region of known finding C03a excluded while it is open); mode 1: confined to that region.
-template<uint32_t DS, uint32_t SID, bool BOUND_A, bool BOUND_B>
+// SA/SB: sections the labels are bound to before the reference (ignored for a label bound afterwards); concrete, because
+// "same section" decides whether a relocation is recorded at all.
+template<uint32_t DS, uint32_t SID, bool BOUND_A, bool BOUND_B, uint32_t SA, uint32_t SB>
 static void embed_delta_flow_s(int mode) {
   bool x64 = nondet_bool();
   CodeHolder* c = make_holder(x64 ? Arch::kX64 : Arch::kX86, 2);
@@ -131,7 +133,7 @@ static void embed_delta_flow_s(int mode) {
   constexpr uint32_t sid = SID;
   BaseAssembler* a = make_asm(c, sid, pos);
   constexpr bool bound_a = BOUND_A, bound_b = BOUND_B;
-  uint32_t sa = nondet_bool() ? 1 : 0, sb = nondet_bool() ? 1 : 0; uint64_t oa = nondet_u64(), ob = nondet_u64();
+  uint32_t sa = SA, sb = SB; uint64_t oa = nondet_u64(), ob = nondet_u64();
   uint32_t la = bound_a ? add_bound_label(sa, oa) : add_label();
   uint32_t lb = bound_b ? add_bound_label(sb, ob) : add_label();
   const uint32_t size = DS ? DS : (x64 ? 8 : 4);
@@ -176,14 +178,23 @@ static void embed_delta_flow_s(int mode) {
     V_WITNESS("embed-delta-refused");
   }
 }
-template<uint32_t DS, uint32_t SID> static void embed_delta_flow_b(int mode) {
-  uint32_t sel = nondet_u8() & 3;
-  if (sel == 0) embed_delta_flow_s<DS, SID, false, false>(mode); else if (sel == 1) embed_delta_flow_s<DS, SID, false, true>(mode);
-  else if (sel == 2) embed_delta_flow_s<DS, SID, true, false>(mode); else embed_delta_flow_s<DS, SID, true, true>(mode);
-}
 template<uint32_t DS> static void embed_delta_flow(int mode) {
-  if (mode == 1) { if (nondet_bool()) embed_delta_flow_s<DS, 1, true, true>(1); else embed_delta_flow_s<DS, 0, true, true>(1); return; }  // the finding needs both bound
-  if (nondet_bool()) embed_delta_flow_b<DS, 1>(mode); else embed_delta_flow_b<DS, 0>(mode);
+  uint32_t sel = nondet_u8() % 9;
+  if (mode == 1) {  // the finding needs both labels bound to one section
+    if (sel & 1) embed_delta_flow_s<DS, 0, true, true, 0, 0>(1); else embed_delta_flow_s<DS, 1, true, true, 1, 1>(1);
+    return;
+  }
+  switch (sel) {
+    case 0: embed_delta_flow_s<DS, 0, false, false, 0, 0>(0); break;
+    case 1: embed_delta_flow_s<DS, 1, false, true, 0, 0>(0); break;
+    case 2: embed_delta_flow_s<DS, 0, false, true, 0, 1>(0); break;
+    case 3: embed_delta_flow_s<DS, 1, true, false, 0, 0>(0); break;
+    case 4: embed_delta_flow_s<DS, 0, true, false, 1, 0>(0); break;
+    case 5: embed_delta_flow_s<DS, 0, true, true, 0, 0>(0); break;
+    case 6: embed_delta_flow_s<DS, 1, true, true, 1, 1>(0); break;
+    case 7: embed_delta_flow_s<DS, 0, true, true, 0, 1>(0); break;
+    default: embed_delta_flow_s<DS, 1, true, true, 1, 0>(0); break;
+  }
 }
 HARNESS h_embed_delta_0() { embed_delta_flow<0>(0); }
 HARNESS h_embed_delta_1() { embed_delta_flow<1>(0); }
